@@ -947,7 +947,7 @@ def is_strictness_fulfilled(
     assert results is not None
     if np.isnan(results.ofv):
         return False
-    elif strictness == "":
+    elif strictness is None or strictness == "":
         return True
     else:
         strictness = strictness.lower()
